@@ -111,77 +111,51 @@ class PageFeatureProcessor:
             and self._should_show_element(document.rtf_page.page_source, page)
         )
 
-        footnote_as_table_on_last = (
-            document.rtf_footnote
-            and document.rtf_footnote.text
-            and getattr(document.rtf_footnote, "as_table", True)
-            and document.rtf_page.page_footnote in ("last", "all")
+        # A footnote/source closes the table on this page only if it is shown
+        # here AND rendered as a table row; a paragraph-style component leaves
+        # the last data row as the last table row.
+        footnote_table_on_page = bool(
+            has_footnote_on_page and getattr(document.rtf_footnote, "as_table", True)
         )
-        source_as_table_on_last = (
-            document.rtf_source
-            and document.rtf_source.text
-            and getattr(document.rtf_source, "as_table", False)
-            and document.rtf_page.page_source in ("last", "all")
+        source_table_on_page = bool(
+            has_source_on_page and getattr(document.rtf_source, "as_table", False)
         )
 
         # 4. Bottom Border Logic
+        # Not last page: BODY border_last closes the page's table.
+        # Last page: PAGE border_last closes the document's table.
+        border_style = None
         if not page.is_last_page:
-            # Not last page: use BODY border_last
             if document.rtf_body.border_last:
                 border_style = (
                     document.rtf_body.border_last[0][0]
                     if isinstance(document.rtf_body.border_last, list)
                     else document.rtf_body.border_last
                 )
+        elif document.rtf_page.border_last:
+            border_style = document.rtf_page.border_last
 
-                if not (has_footnote_on_page or has_source_on_page):
-                    # Apply to last data row
-                    for col_idx in range(page_df_width):
-                        page_attrs = self._apply_border_to_cell(
-                            page_attrs,
-                            page_df_height - 1,
-                            col_idx,
-                            "bottom",
-                            border_style,
-                            page_shape,
-                        )
-                else:
-                    # Apply to component
-                    self._apply_footnote_source_borders(
-                        document,
-                        page,
-                        has_footnote_on_page,
-                        has_source_on_page,
+        if border_style:
+            if not (footnote_table_on_page or source_table_on_page):
+                # Apply to last data row
+                for col_idx in range(page_df_width):
+                    page_attrs = self._apply_border_to_cell(
+                        page_attrs,
+                        page_df_height - 1,
+                        col_idx,
+                        "bottom",
                         border_style,
+                        page_shape,
                     )
-        else:
-            # Last page: use PAGE border_last
-            if document.rtf_page.border_last:
-                # Only if this is truly the end (not just last page of a section,
-                # but for now we assume 1 section or last section)
-                # The original code checked `page_info["end_row"] == total_rows - 1`.
-                # Here we rely on `is_last_page` flag which comes from strategy.
-
-                if not (footnote_as_table_on_last or source_as_table_on_last):
-                    # Apply to last data row
-                    for col_idx in range(page_df_width):
-                        page_attrs = self._apply_border_to_cell(
-                            page_attrs,
-                            page_df_height - 1,
-                            col_idx,
-                            "bottom",
-                            document.rtf_page.border_last,
-                            page_shape,
-                        )
-                else:
-                    # Apply to component
-                    self._apply_footnote_source_borders(
-                        document,
-                        page,
-                        has_footnote_on_page,
-                        has_source_on_page,
-                        document.rtf_page.border_last,
-                    )
+            else:
+                # Apply to the table-rendered component that ends the page
+                self._apply_footnote_source_borders(
+                    document,
+                    page,
+                    has_footnote_on_page,
+                    has_source_on_page,
+                    border_style,
+                )
 
         return page_attrs
 
